@@ -210,7 +210,7 @@ class HostKeyTest:
                         hostkey_min_good = 256
                         hostkey_min_warn = 224
                         hostkey_warn_str = HostKeyTest.SMALL_ECC_MODULUS_WARNING
-                    if ca_key_type.startswith('ssh-ed25519') or ca_key_type.startswith('ecdsa-sha2-nistp'):
+                    if ca_key_type.startswith(('ssh-ed25519', 'ecdsa-sha2-nistp', 'sk-ssh-ed25519', 'sk-ecdsa-sha2-nistp')):
                         cakey_min_good = 256
                         cakey_min_warn = 224
                         cakey_warn_str = HostKeyTest.SMALL_ECC_MODULUS_WARNING
@@ -240,7 +240,7 @@ class HostKeyTest:
                             key_warn_comments.append(cakey_warn_str)
 
                     # If the CA key type uses ECDSA with a NIST P-curve, fail it for possibly being back-doored.
-                    if ca_key_type.startswith('ecdsa-sha2-nistp'):
+                    if ca_key_type.startswith(('ecdsa-sha2-nistp', 'sk-ecdsa-sha2-nistp')):
                         key_fail_comments.append('CA key uses elliptic curves that are suspected as being backdoored by the U.S. National Security Agency')
 
                 # If this host key type is in the RSA family, then mark them all as parsed (since results in one are valid for them all).
